@@ -221,6 +221,18 @@ Definition stat_contract (gstat : mtable -> Q) (auto_l : list Q) (auto_w : optio
     (med_diff auto_l auto_w (map (fun x => qadd x male_shift) vals) w <
      med_diff auto_l auto_w (map (fun x => qadd x female_shift) vals) w -> m < f /\ lr_denominator_floor < f).
 
+Lemma stat_contract_def gstat auto_l auto_w vals w fs ms :
+  stat_contract gstat auto_l auto_w vals w fs ms <->
+  (forall f m,
+     mood_stat gstat auto_l (map (fun x => qadd x fs) vals) = Some f ->
+     mood_stat gstat auto_l (map (fun x => qadd x ms) vals) = Some m ->
+     0 <= f /\ 0 <= m /\
+     (med_diff auto_l auto_w (map (fun x => qadd x fs) vals) w < med_diff auto_l auto_w (map (fun x => qadd x ms) vals) w ->
+      f < m) /\
+     (med_diff auto_l auto_w (map (fun x => qadd x ms) vals) w < med_diff auto_l auto_w (map (fun x => qadd x fs) vals) w ->
+      m < f /\ lr_denominator_floor < f)).
+Proof. reflexivity. Qed.
+
 (* no statistic for at least one of the two hypotheses: the route of the differences of medians *)
 Definition stat_absent (gstat : mtable -> Q) (auto_l vals : list Q) (female_shift male_shift : Q) : Prop :=
   mood_stat gstat auto_l (map (fun x => qadd x female_shift) vals) = None \/
@@ -657,4 +669,206 @@ Proof.
   - apply qlt_b_iff. exact H1.
   - apply centred_noise_b_sound. exact H2.
   - apply sex_contract_b_sound; assumption.
+Qed.
+
+Lemma noise_tests_sound gstat eps a female hap build t :
+  (bounded_noise_b eps a female hap build t = true -> bounded_noise eps a female hap build t) /\
+  (centred_noise_b (sex_centre t) eps a female hap build t = true -> centred_noise (sex_centre t) eps a female hap build t) /\
+  (sex_contract_x_b gstat hap build t = true -> sex_contract_y_b gstat build t = true -> sex_contract gstat hap build t) /\
+  (sex_route_x gstat hap build t = 0%Z -> sex_route_y gstat build t = 0%Z -> sex_stat_absent gstat hap build t).
+Proof.
+  split; [apply bounded_noise_b_sound|]. split; [apply centred_noise_b_sound|].
+  split; [apply sex_contract_b_sound|apply sex_route_absent].
+Qed.
+
+(* ================================================================================================ *)
+(* 5. shift_xx on a bounded-noise sample *)
+
+Lemma x_label_not_auto t : is_auto_name (x_label t) = false.
+Proof. destruct t as [|b r]; [reflexivity|]. unfold x_label. destruct (str_prefix "chr" (b_chrom b)); reflexivity. Qed.
+
+(* what counts as autosomal is never what shift_xx moves *)
+Lemma auto_sel_not_x t build b : auto_sel t build b = true -> chr_x_filter t build b = false.
+Proof.
+  unfold auto_sel, chr_x_filter, is_auto_bin. intros H.
+  destruct (String.eqb (b_chrom b) (x_label t)) eqn:E; [|reflexivity].
+  apply String.eqb_eq in E. rewrite E, x_label_not_auto in H. cbn [orb] in H.
+  destruct build as [p|]; [|discriminate]. rewrite H. reflexivity.
+Qed.
+
+Lemma auto_sel_same c t build b b' : same_but_log2 c b b' -> auto_sel t build b' = auto_sel t build b.
+Proof.
+  intros [Hc [Hs [He _]]]. unfold auto_sel, is_auto_bin, parx_filter, in_par. rewrite Hc, Hs, He. reflexivity.
+Qed.
+
+(* after shift_xx with the sample's true sex every chrX bin (outside PAR-X) is within eps of the AUTOSOMAL level,
+   and the autosomal bins are where they were, within eps of it *)
+Lemma bounded_shift_xx eps a female hap build t :
+  bounded_noise eps a female hap build t ->
+  forall b', In b' (shift_xx hap (Some female) build t) ->
+    (chr_x_filter t build b' = true -> near eps a (b_log2 b')) /\
+    (auto_sel t build b' = true -> near eps a (b_log2 b')).
+Proof.
+  intros H b' Hb'. pose proof (shift_xx_spec hap female build t) as S.
+  destruct (Forall2_In_r _ _ _ _ S Hb') as [b [Hb K]].
+  destruct (chr_x_filter t build b) eqn:E.
+  - pose proof (chr_x_filter_same _ t build b b' K) as Ex. pose proof (auto_sel_same _ t build b b' K) as Ea.
+    destruct K as (_ & _ & _ & _ & _ & _ & Hl). split.
+    + intros _. pose proof (bn_x _ _ _ _ _ _ H b Hb E) as N. apply near_iff in N. apply near_iff. rewrite Hl. lra.
+    + intros Ha. rewrite Ea in Ha. apply auto_sel_not_x in Ha. congruence.
+  - subst b'. split; [congruence|]. intros Ha. exact (bn_auto _ _ _ _ _ _ H b Hb Ha).
+Qed.
+
+(* hence chrX comes within 2 eps of every autosomal bin *)
+Lemma bounded_shift_xx_gap eps a female hap build t :
+  bounded_noise eps a female hap build t ->
+  forall bx ba, In bx (shift_xx hap (Some female) build t) -> In ba (shift_xx hap (Some female) build t) ->
+    chr_x_filter t build bx = true -> auto_sel t build ba = true ->
+    Qabs (b_log2 bx - b_log2 ba) <= 2 * eps.
+Proof.
+  intros H bx ba Hx Ha Ex Ea.
+  destruct (bounded_shift_xx eps a female hap build t H bx Hx) as [Nx _].
+  destruct (bounded_shift_xx eps a female hap build t H ba Ha) as [_ Na].
+  specialize (Nx Ex). specialize (Na Ea). apply near_iff in Nx. apply near_iff in Na.
+  apply Qabs_upper. lra.
+Qed.
+
+(* ... also when shift_xx guesses the sex itself (is_xx=None) *)
+Lemma bounded_shift_xx_guessed (gstat : mtable -> Q) eps a female hap build t :
+  eps < 1 # 4 -> bounded_noise eps a female hap build t -> sex_contract gstat hap build t ->
+  shift_xx hap (guess_xx gstat hap build t) build t = shift_xx hap (Some female) build t /\
+  (forall b', In b' (shift_xx hap (guess_xx gstat hap build t) build t) ->
+     (chr_x_filter t build b' = true -> near eps a (b_log2 b')) /\
+     (auto_sel t build b' = true -> near eps a (b_log2 b'))) /\
+  (forall bx ba, In bx (shift_xx hap (guess_xx gstat hap build t) build t) ->
+     In ba (shift_xx hap (guess_xx gstat hap build t) build t) ->
+     chr_x_filter t build bx = true -> auto_sel t build ba = true -> Qabs (b_log2 bx - b_log2 ba) <= 2 * eps).
+Proof.
+  intros He H Hc. destruct (bounded_noise_all gstat eps a female hap build t He H Hc) as (_ & G & _).
+  rewrite G. split; [reflexivity|]. split.
+  - apply (bounded_shift_xx eps a). exact H.
+  - apply (bounded_shift_xx_gap eps a). exact H.
+Qed.
+
+(* ================================================================================================ *)
+(* 6. the property's setting, as far as a deterministic statement goes: every bin within 0.24 of its level *)
+
+Lemma bounded_noise_024 (gstat : mtable -> Q) a female hap build t :
+  bounded_noise (24 # 100) a female hap build t -> sex_contract gstat hap build t ->
+  sex_decision gstat hap build t = Some (negb female) /\
+  guess_xx gstat hap build t = Some female /\
+  fst (do_sex_row gstat hap build t) = (if female then "Female" else "Male")%string /\
+  (forall bx ba, In bx (shift_xx hap (guess_xx gstat hap build t) build t) ->
+     In ba (shift_xx hap (guess_xx gstat hap build t) build t) ->
+     chr_x_filter t build bx = true -> auto_sel t build ba = true -> Qabs (b_log2 bx - b_log2 ba) <= 48 # 100).
+Proof.
+  intros H Hc. assert (He : 24 # 100 < 1 # 4) by (unfold Qlt; simpl; lia).
+  destruct (bounded_noise_all gstat _ a female hap build t He H Hc) as (A & B & C).
+  split; [exact A|]. split; [exact B|]. split; [exact C|].
+  destruct (bounded_shift_xx_guessed gstat _ a female hap build t He H Hc) as (_ & _ & G).
+  intros bx ba Hx Ha Ex Ea. specialize (G bx ba Hx Ha Ex Ea).
+  eapply Qle_trans; [exact G|]. unfold Qle; simpl; lia.
+Qed.
+
+(* ================================================================================================ *)
+(* 7. witnesses *)
+
+(* a statistic one can compute in Q: Pearson's chi-square of the 2x2 table (scipy's G statistic needs logarithms) *)
+Definition pearson (t : mtable) : Q :=
+  let '(a1, a2, b1, b2) := t in
+  let n := (a1 + a2 + b1 + b2)%Z in
+  let d := (a1 * b2 - a2 * b1)%Z in
+  Qred (inject_Z (n * d * d) / inject_Z ((a1 + a2) * (b1 + b2) * (a1 + b1) * (a2 + b2))).
+
+(* (a) the contract is satisfiable on the route WITH statistics: a male sample against a female reference, ten bins
+   within 1/8 of their levels; both median tests of chrX yield a statistic (20/3 under the female shift, 0 under the
+   male shift), the contract holds, and the decision is male *)
+Definition contract_witness : list bin :=
+  map (fun v => mkBin "chr1" 0 100 "g" v None None) [-1 # 8; -1 # 16; 0; 1 # 32; 1 # 16; 1 # 8] ++
+  map (fun v => mkBin "chrX" 0 100 "g" v None None) [-9 # 8; -33 # 32; -31 # 32; -29 # 32].
+
+Lemma contract_satisfiable :
+  bounded_noise (1 # 8) 0 false false None contract_witness /\
+  sex_route_x pearson false None contract_witness = 1%Z /\
+  sex_contract pearson false None contract_witness /\
+  sex_decision pearson false None contract_witness = Some true.
+Proof.
+  split; [apply bounded_noise_b_sound; vm_compute; reflexivity|].
+  split; [vm_compute; reflexivity|].
+  split; [apply sex_contract_b_sound; vm_compute; reflexivity|].
+  vm_compute. reflexivity.
+Qed.
+
+(* (b) the contract cannot be dropped: a male sample (female reference, no chrY) with every bin within 1/16 of its
+   level whose autosomal bins all lie slightly above the level and whose chrX bins all lie slightly below theirs.
+   Both shifts leave chrX entirely below the autosomes, the two median tests see the SAME contingency table
+   (4, 1, 0, 5), so every statistic that is a function of the table gives f = m, the ratio is at most 1 and the sample
+   is called female -- whatever the statistic, unless it is 0 on that table (then the medians decide: male). *)
+Definition adversarial_witness : list bin :=
+  map (fun v => mkBin "chr1" 0 100 "g" v None None) [3 # 64; 4 # 64; 2 # 64; 1 # 64] ++
+  map (fun v => mkBin "chrX" 0 100 "g" v None None)
+      [-65 # 64; -66 # 64; -67 # 64; -68 # 64; -129 # 128; -131 # 128].
+
+Lemma mood_stat_some gstat s1 s2 T : s1 <> [] -> s2 <> [] -> mood_table s1 s2 = T -> mood_valid T = true ->
+  ~ gstat T == 0 -> mood_stat gstat s1 s2 = Some (gstat T).
+Proof.
+  intros H1 H2 ET HV HS. unfold mood_stat. destruct s1 as [|x1 r1]; [contradiction|]. destruct s2 as [|x2 r2]; [contradiction|].
+  rewrite ET, HV. apply qeq_b_false in HS. rewrite HS. reflexivity.
+Qed.
+
+Lemma contract_needed :
+  bounded_noise (1 # 16) 0 false false None adversarial_witness /\
+  forall gstat : mtable -> Q, ~ gstat (4, 1, 0, 5)%Z == 0 ->
+    sex_decision gstat false None adversarial_witness = Some false /\
+    ~ sex_contract gstat false None adversarial_witness.
+Proof.
+  split; [apply bounded_noise_b_sound; vm_compute; reflexivity|].
+  intros gstat HS.
+  set (auto_l := [3 # 64; 4 # 64; 2 # 64; 1 # 64]).
+  set (xs := [-65 # 64; -66 # 64; -67 # 64; -68 # 64; -129 # 128; -131 # 128]).
+  assert (Ea : map b_log2 (autosomes adversarial_witness None) = auto_l) by (vm_compute; reflexivity).
+  assert (Ex : map b_log2 (filter (chr_x_filter adversarial_witness None) adversarial_witness) = xs) by (vm_compute; reflexivity).
+  assert (Sf : mood_stat gstat auto_l (map (fun x => qadd x 0) xs) = Some (gstat (4, 1, 0, 5)%Z)).
+  { apply mood_stat_some; [discriminate|discriminate|vm_compute; reflexivity|reflexivity|exact HS]. }
+  assert (Sm : mood_stat gstat auto_l (map (fun x => qadd x 1) xs) = Some (gstat (4, 1, 0, 5)%Z)).
+  { apply mood_stat_some; [discriminate|discriminate|vm_compute; reflexivity|reflexivity|exact HS]. }
+  split.
+  - rewrite sex_decision_unfold by (vm_compute; discriminate). f_equal.
+    assert (Ey : y_lr_of gstat None adversarial_witness = None) by reflexivity.
+    rewrite Ey. cbn [score_of]. apply is_xy_of_false.
+    unfold x_lr_of. rewrite Ea, Ex. unfold male_lr. cbn [x_shifts fst snd].
+    change x_shift_female_dipref with 0. change x_shift_male_dipref with 1. rewrite Sf, Sm.
+    cbn [lr_of]. rewrite qdiv_spec. set (s := gstat (4, 1, 0, 5)%Z).
+    pose proof (qmax2_floor_pos s) as Hp. destruct (qmax2_spec s lr_denominator_floor) as [H1 _].
+    apply Qle_shift_div_r; [exact Hp|]. lra.
+  - intros [Cx _]. cbn zeta in Cx. rewrite Ea, Ex in Cx. cbn [x_shifts fst snd] in Cx.
+    change x_shift_female_dipref with 0 in Cx. change x_shift_male_dipref with 1 in Cx.
+    destruct (Cx _ _ Sf Sm) as (_ & _ & _ & K).
+    assert (D : med_diff auto_l (opt_weights (has_weight adversarial_witness) (autosomes adversarial_witness None))
+                         (map (fun x => qadd x 1) xs)
+                         (opt_weights (has_weight adversarial_witness)
+                                      (filter (chr_x_filter adversarial_witness None) adversarial_witness)) <
+                med_diff auto_l (opt_weights (has_weight adversarial_witness) (autosomes adversarial_witness None))
+                         (map (fun x => qadd x 0) xs)
+                         (opt_weights (has_weight adversarial_witness)
+                                      (filter (chr_x_filter adversarial_witness None) adversarial_witness)))
+      by (vm_compute; reflexivity).
+    destruct (K D) as [K1 _]. apply (Qlt_irrefl _ K1).
+Qed.
+
+(* (c) the threshold 1/4 is sharp on the route of the differences of medians: a male sample (female reference, 40 chrX
+   bins) whose autosomal bins all sit 1/4 below their level and whose chrX bins all sit 1/4 above theirs.  Under either
+   shift every value ties with the grand median or lies on one side of it, so neither test yields a statistic; both
+   differences of medians are 1/2, the ratio is exactly 1, `> 1` fails, and the sample is called female for EVERY oracle *)
+Definition quarter_witness : list bin :=
+  map (fun v => mkBin "chr1" 0 100 "g" v None None) (repeat (-1 # 4) 3) ++
+  map (fun v => mkBin "chrX" 0 100 "g" v None None) (repeat (-3 # 4) 40).
+
+Lemma quarter_is_sharp :
+  bounded_noise (1 # 4) 0 false false None quarter_witness /\
+  forall gstat : mtable -> Q, sex_decision gstat false None quarter_witness = Some false.
+Proof.
+  split; [apply bounded_noise_b_sound; vm_compute; reflexivity|].
+  (* both shifts leave one side of the grand median empty: neither test yields a statistic, for any oracle *)
+  intros gstat. vm_compute. reflexivity.
 Qed.
